@@ -45,6 +45,48 @@ def upperBound (lt : α → α → Bool) (l : List α) (v : α) : (first len : N
 termination_by first len => len
 decreasing_by all_goals omega
 
+/-- `std::lower_bound(first, first+len, k, comp)` (libstdc++) with a key `k` of ANOTHER type than the elements (a transparent
+    comparator): the loop only ever evaluates `comp(*mid, k)`, here the predicate `p x = comp(x, k)`. Same loop as
+    `lowerBound` (`lowerBound lt l v = lowerBoundBy (fun x => lt x v) l`); returns (index, comparator calls): on a
+    range partitioned by `p`, the first index whose element does not satisfy `p`. -/
+def lowerBoundBy (p : α → Bool) (l : List α) : (first len : Nat) → Nat × Nat
+  | first, 0 => (first, 0)
+  | first, len+1 =>
+    let half := (len+1) / 2
+    let mid := first + half
+    match l[mid]? with
+    | some x =>
+      if p x then
+        let r := lowerBoundBy p l (mid + 1) (len + 1 - half - 1)
+        (r.1, r.2 + 1)
+      else
+        let r := lowerBoundBy p l first half
+        (r.1, r.2 + 1)
+    | none => (first, 0)
+termination_by first len => len
+decreasing_by all_goals omega
+
+/-- `std::upper_bound(first, first+len, k, comp)` (libstdc++) with a key of another type: the loop only ever evaluates
+    `comp(k, *mid)`, here the predicate `q x = comp(k, x)`. Same loop as `upperBound`
+    (`upperBound lt l v = upperBoundBy (fun x => lt v x) l`); on a range partitioned by `!q`, the first index whose
+    element satisfies `q`. -/
+def upperBoundBy (q : α → Bool) (l : List α) : (first len : Nat) → Nat × Nat
+  | first, 0 => (first, 0)
+  | first, len+1 =>
+    let half := (len+1) / 2
+    let mid := first + half
+    match l[mid]? with
+    | some x =>
+      if q x then
+        let r := upperBoundBy q l first half
+        (r.1, r.2 + 1)
+      else
+        let r := upperBoundBy q l (mid + 1) (len + 1 - half - 1)
+        (r.1, r.2 + 1)
+    | none => (first, 0)
+termination_by first len => len
+decreasing_by all_goals omega
+
 /-- `FlatSet::insert_val` with the comparator-call count: (list, index of the element equivalent to v, inserted?, calls) -/
 def insertValC (lt : α → α → Bool) (l : List α) (v : α) : List α × Nat × Bool × Nat :=
   let (i, c) := lowerBound lt l v 0 l.length
@@ -137,6 +179,39 @@ def findSmall (lt : α → α → Bool) : List α → α → Nat → Option Nat 
       let r := findSmall lt rest k (i + 1)
       (r.1, r.2 + 2)
     else (some i, 2)
+
+/-- `find_if(vec, FindFunctor<K>)` with a key of ANOTHER type than the elements (transparent comparator; `ltEK` = comp(element, key),
+    `ltKE` = comp(key, element)): index of the first element equivalent to the key, with comparator calls
+    (`!comp(k, o) && !comp(o, k)`: one call when the first is true, two otherwise) -/
+def findSmallHet {κ : Type} (ltEK : α → κ → Bool) (ltKE : κ → α → Bool) : List α → κ → Nat → Option Nat × Nat
+  | [], _, _ => (none, 0)
+  | o :: rest, k, i =>
+    if ltKE k o then
+      let r := findSmallHet ltEK ltKE rest k (i + 1)
+      (r.1, r.2 + 1)
+    else if ltEK o k then
+      let r := findSmallHet ltEK ltKE rest k (i + 1)
+      (r.1, r.2 + 2)
+    else (some i, 2)
+
+/-- `count_if(vec, FindFunctor<K>)` with a key of another type: (number of elements equivalent to the key, comparator calls) -/
+def countSmallHet {κ : Type} (ltEK : α → κ → Bool) (ltKE : κ → α → Bool) : List α → κ → Nat × Nat
+  | [], _ => (0, 0)
+  | o :: rest, k =>
+    let r := countSmallHet ltEK ltKE rest k
+    if ltKE k o then (r.1, r.2 + 1)
+    else if ltEK o k then (r.1, r.2 + 2)
+    else (r.1 + 1, r.2 + 2)
+
+/-- `SetType::find(const K &)` of the backing set (a template parameter) with a key of another type, at the level of its
+    specification: the position of the first element equivalent to the key, `end()` when there is none (what `std::set` and
+    `amc::FlatSet` do: lower bound, then one comparison) -/
+def findHetIdx {κ : Type} (ltEK : α → κ → Bool) (ltKE : κ → α → Bool) (l : List α) (k : κ) : Nat :=
+  l.findIdx (fun x => !ltEK x k && !ltKE k x)
+
+/-- `SetType::count(const K &)` of the backing set with a key of another type: the number of elements equivalent to the key -/
+def countHet {κ : Type} (ltEK : α → κ → Bool) (ltKE : κ → α → Bool) (l : List α) (k : κ) : Nat :=
+  (l.filter (fun x => !ltEK x k && !ltKE k x)).length
 
 /-- `SmallSet::grow`: every inline element goes into the backing set, the inline vector is cleared -/
 def SSet.grow (lt : α → α → Bool) (s : SSet α) : SSet α := ⟨[], insertAll lt s.set s.vec⟩
